@@ -143,6 +143,9 @@ mod x86;
 #[cfg(miri)]
 mod miri;
 
+// SEAM: under Miri the `miri` module is architecture-independent, so other (e.g. big-endian) targets may be
+// interpreted; non-Miri builds keep upstream's restriction.
+#[cfg(not(miri))]
 #[cfg(not(any(
     target_arch = "aarch64",
     target_arch = "loongarch64",
